@@ -9,7 +9,7 @@
 From Coq Require Import Reals ZArith List.
 From Flocq Require Import Core.Raux.
 From QV Require Import Rt.Prelude Rt.Amount Rt.Quantity Gen.Prefixes Gen.Kernels Amount.DecModel Amount.Dec Amount.DecAcc
-  Proofs.Laws Proofs.Kernel Proofs.C09 Proofs.Derived Proofs.AccDec Proofs.AccDecExamples.
+  Proofs.Laws Proofs.Kernel Proofs.C09 Proofs.Derived Proofs.AccDec Proofs.AccDecExamples Proofs.AccInverse.
 From QV Require Amount.Laws Proofs.C14.
 Local Open Scope R_scope.
 
@@ -153,6 +153,21 @@ Theorem DEC_C14_affine : forall (S : QBase DEC), QLaws S -> forall (q : Qt S) (t
   ((d_nfd (q_amount S q) + d_nfd k <= 18)%Z -> dval (q_amount S z) = dval (q_amount S q) * dval k + dval c).
 Proof. exact dec_affine_value. Qed.
 
+(** C04 (decimal), multiply then divide on the natural-unit path: the original magnitude within an explicit bound *)
+Theorem DEC_C04_mul_then_div : forall (R0 L0 : QFull DEC), QLaws R0 -> QLaws L0 ->
+  (forall w, In w (u_iter R0) -> dfit (u_scale R0 w)) -> (forall w, In w (u_iter L0) -> dfit (u_scale L0 w)) ->
+  forall su sv a b : dec, Amount.Laws.dec_ok su -> Amount.Laws.dec_ok sv -> Amount.Laws.dec_ok a -> Amount.Laws.dec_ok b ->
+  forall (z : Qt R0) (z' : Qt L0) (sc sc2 : dec) (w u' : nat),
+  dec_mul su sv = Ok sc -> (Z.abs (d_coeff sc) <= i128_max)%Z -> HasRefUnit_unit_from_scale R0 sc = Some w ->
+  @derived_nf DEC dec_mul R0 su sv a b = Ok z ->
+  dec_div (u_scale R0 w) sv = Ok sc2 -> (Z.abs (d_coeff sc2) <= i128_max)%Z -> HasRefUnit_unit_from_scale L0 sc2 = Some u' ->
+  @derived_nf DEC dec_div L0 (u_scale R0 (q_unit R0 z)) sv (q_amount R0 z) b = Ok z' ->
+  q_unit R0 z = w /\ q_unit L0 z' = u' /\ dval sv <> 0 /\ dval b <> 0 /\
+  Rabs (dmag_o L0 z' - dval a * dval su) <=
+    half_ulp18 * (Rabs (dval sc2) + Rabs (dval (q_amount R0 z) / dval b)) +
+    half_ulp18 * (Rabs (dval sc) + Rabs (dval a * dval b)) / (Rabs (dval b) * Rabs (dval sv)).
+Proof. exact mul_then_div_natural_dec. Qed.
+
 Print Assumptions DEC_operations.
 Print Assumptions DEC_comparison.
 Print Assumptions DEC_totality.
@@ -168,3 +183,4 @@ Print Assumptions DEC_C04_natural_unit.
 Print Assumptions DEC_C04_fit_path.
 Print Assumptions DEC_C04_operations.
 Print Assumptions DEC_C14_affine.
+Print Assumptions DEC_C04_mul_then_div.
